@@ -106,7 +106,11 @@ def run (j : Json) : Except String Json := do
   let ops := match tokenize path with
     | .ok ops => ofList opJson ops
     | .error e => obj [("error", Json.str (errStr e))]
-  let res := find root start path single strict
+  -- "as_segments": "tuple" | "list" — the path was handed to find() as that kind of iterable
+  let segKind := (str (fldD j "as_segments" (Json.str ""))).toOption.getD ""
+  let nseg := (path.splitOn '/').length
+  let fmtOK := !(segKind == "tuple" && nseg != 1)
+  let res := findWith fmtOK root start path single strict
   let mut out := [("ops", ops), ("result", resJson tbl res)]
   -- spec B on the AST the path was printed from (when the case carries one)
   match j.getObjVal? "ast" with
@@ -124,8 +128,8 @@ def run (j : Json) : Except String Json := do
       if cp.wf then
         -- theorems find_print_cancel / find_print_denotes / tokenize_print, re-checked on the case
         let hasDots := p.steps.any (fun s => s.isUp || s.isHere)
-        let agrees := printed == path && findResEq specC res &&
-          (!(Canon p) || findResEq spec res) &&
+        let agrees := printed == path && findResEq specC (find root start path single strict) &&
+          (!(Canon p) || findResEq spec (find root start path single strict)) &&
           (match tokenize path with
            | .ok ops => ops == (if hasDots then canonicalize (compile p) else compile p)
            | .error _ => false)
